@@ -1,0 +1,76 @@
+//go:build verif
+
+// Machine-checked contracts for package cache (comment-only; read by /verif/govc).
+// Property C13: memory caches stay within budget and their accounting balances.
+
+package cache
+
+// ---- BlobMemoryCache --------------------------------------------------------------------
+// stored(c.entries) is the ghost sum of len(e.Data) over the stored entries; the outstanding
+// reservations are c.totalSize - stored(c.entries) (never negative, by the lock invariant).
+
+//@ ghostsum stored over map[string]*MemoryEntry of len(v.Data)
+
+//@ lockinv BlobMemoryCache.mu self c guards contents entries, totalSize
+//@   invariant balance: stored(c.entries) <= c.totalSize
+//@   invariant budget: c.totalSize <= c.config.MaxSize
+//@   invariant entries_ok: forall k string :: k in c.entries ==> c.entries[k] != nil && allocated(c.entries[k])
+
+//@ specfunc bshape(c *BlobMemoryCache) bool = c != nil && c.entries != nil
+
+//@ func BlobMemoryCache.TryReserve
+//@   requires bshape(c)
+//@   nopanic
+//@   modifies c.totalSize
+//@   ensures admitted_iff_fits: result <==> old(c.totalSize) + size <= c.config.MaxSize
+//@   ensures reserved: result ==> c.totalSize == old(c.totalSize) + size
+//@   ensures refused: !result ==> c.totalSize == old(c.totalSize)
+
+// The caller gives back a reservation it holds: size is at most the outstanding reservations.
+//@ func BlobMemoryCache.ReleaseReservation
+//@   requires bshape(c)
+//@   requires_locked holds_reservation: size <= c.totalSize - stored(c.entries)
+//@   nopanic
+//@   modifies c.totalSize
+//@   ensures released: c.totalSize == old(c.totalSize) - size
+
+// Add converts a reservation the caller holds into a stored entry of exactly that many bytes.
+//@ func BlobMemoryCache.Add
+//@   requires bshape(c) && entry != nil && allocated(entry)
+//@   requires_locked holds_reservation: len(entry.Data) <= c.totalSize - stored(c.entries)
+//@   modifies map c.entries
+//@   ensures added_iff_new: result <==> !old(entry.Name in c.entries)
+//@   ensures stored_entry: result ==> c.entries[entry.Name] == entry && stored(c.entries) == old(stored(c.entries)) + len(entry.Data)
+//@   ensures unchanged_if_dup: !result ==> stored(c.entries) == old(stored(c.entries)) && c.entries[entry.Name] == old(c.entries[entry.Name])
+//@   ensures others: forall k string :: k != entry.Name ==> ((k in c.entries) <==> old(k in c.entries)) && c.entries[k] == old(c.entries[k])
+//@   ensures total_same: c.totalSize == old(c.totalSize)
+
+// Runs with c.mu held. Callers pass the size of an entry they just removed, which the lock
+// invariant bounds by totalSize, so the underflow branch is dead code.
+//@ func BlobMemoryCache.decrementTotalSize
+//@   held c.mu
+//@   requires c != nil && size <= c.totalSize
+//@   modifies c.totalSize
+//@   ensures decremented: c.totalSize == old(c.totalSize) - size
+
+//@ func BlobMemoryCache.Remove
+//@   requires bshape(c)
+//@   nopanic
+//@   modifies map c.entries, c.totalSize
+//@   ensures gone: !(name in c.entries)
+//@   ensures accounted: old(name in c.entries) ==> c.totalSize == old(c.totalSize) - len(old(c.entries[name]).Data) && stored(c.entries) == old(stored(c.entries)) - len(old(c.entries[name]).Data)
+//@   ensures noop: !old(name in c.entries) ==> c.totalSize == old(c.totalSize) && stored(c.entries) == old(stored(c.entries))
+//@   ensures others: forall k string :: k != name ==> ((k in c.entries) <==> old(k in c.entries)) && c.entries[k] == old(c.entries[k])
+
+//@ func BlobMemoryCache.RemoveBatch
+//@   requires bshape(c)
+//@   modifies map c.entries, c.totalSize
+//@   ensures reservations_kept: c.totalSize - stored(c.entries) == old(c.totalSize - stored(c.entries))
+//@   ensures only_removes: forall k string :: k in c.entries ==> old(k in c.entries) && c.entries[k] == old(c.entries[k])
+//@   loop 0 invariant reservations_kept: c.totalSize - stored(c.entries) == old(c.totalSize - stored(c.entries))
+//@   loop 0 invariant balance: stored(c.entries) <= c.totalSize && c.totalSize <= c.config.MaxSize
+//@   loop 0 invariant only_removes: forall k string :: k in c.entries ==> old(k in c.entries) && c.entries[k] == old(c.entries[k]) && c.entries[k] != nil && allocated(c.entries[k])
+
+//@ func BlobMemoryCache.TotalBytes
+//@   requires bshape(c)
+//@   ensures within_budget: result <= c.config.MaxSize
